@@ -177,8 +177,8 @@ PROPS = {
     "C02": {
         "facts": ['clause_kinds_covered'],
         "nt_rule": "unsat_or_learnt",
-        "level": "proof", "module": "Resolvo.Props.C02", "imports": ["Resolvo.MDet.CheckedProofs", "Resolvo.MDet.EncSound", "Resolvo.MDet.Tracker"],
-        "theorems": ["Resolvo.C02.encoder_never_excludes_a_solution", "Resolvo.C02.encoded_clauses_unsat_means_no_solution", "Resolvo.MDet.no_solution_of_encoded_unsat", "Resolvo.C02.decision_tracker_consistent", "Resolvo.MDet.solveRun_dtinv", "Resolvo.MDet.encoder_sound", "Resolvo.MDet.clause_sound", "Resolvo.MDet.solveChecked_unsat_sound", "Resolvo.MDet.solveChecked_ok_solvable", "Resolvo.C02.unsat_certified", "Resolvo.C02.decideSolvable_correct", "Resolvo.C02.ok_solvable",
+        "level": "proof", "module": "Resolvo.Props.C02", "imports": ["Resolvo.MDet.CheckedProofs", "Resolvo.MDet.EncSound", "Resolvo.MDet.Tracker", "Resolvo.MDet.Undo"],
+        "theorems": ["Resolvo.C02.try_add_decision_post", "Resolvo.MDet.tryAdd_post", "Resolvo.C02.encoder_never_excludes_a_solution", "Resolvo.C02.encoded_clauses_unsat_means_no_solution", "Resolvo.MDet.no_solution_of_encoded_unsat", "Resolvo.C02.decision_tracker_consistent", "Resolvo.MDet.solveRun_dtinv", "Resolvo.MDet.encoder_sound", "Resolvo.MDet.clause_sound", "Resolvo.MDet.solveChecked_unsat_sound", "Resolvo.MDet.solveChecked_ok_solvable", "Resolvo.C02.unsat_certified", "Resolvo.C02.decideSolvable_correct", "Resolvo.C02.ok_solvable",
                      "Resolvo.C02.verdict_invariant", "Resolvo.Abs.fail_sound", "Resolvo.Sat.rup_sound", "Resolvo.Sat.decideSat'_iff",
                      "Resolvo.encodeAll_iff", "Resolvo.Abs.step_linv", "Resolvo.Abs.step_sinv"],
         "families": [("solve", SOLVE_Q), ("soft", SOFT_Q), ("conflictfree", CF_Q), ("hints", HINTS_Q), ("reuse", {"quick": 8000, "thorough": 100000})],
